@@ -63,13 +63,19 @@ def nonzero_defaults(info, pars, rng):
     return changed
 
 
+def dispersible(pt, dim):
+    """names of the call parameters that may carry a distribution for this kind of data, from the parameter flags
+    themselves (numbered entries of vector parameters included; orientation only for 2-D data; never magnetic)"""
+    return [p.name for p in pt.call_parameters if p.polydisperse and p.type != "magnetic" and (dim == "2d" or p.type != "orientation")]
+
+
 def gen_case(model, info, dim, rng, cap, kinds, force_kind=None):
     """Return (pars, cutoff, mode, tags)."""
     pt = info.parameters
     pars = base_pars(info, rng)
     pars["scale"] = rng.choice([1.0, rng.uniform(0.01, 3)])
     pars["background"] = rng.choice([0.0, rng.uniform(0.001, 2)])
-    pd_names = list(pt.pd_2d if dim == "2d" else pt.pd_1d)
+    pd_names = dispersible(pt, dim)
     byname = {p.name: p for p in pt.call_parameters}
     tags = []
     kind = force_kind or rng.choice(kinds)
@@ -145,10 +151,33 @@ def build_case(kernel, info, dim, q, pars, cutoff, mode, rng, cap, with_runs=Tru
     npars = info.parameters.npars
     kp = cp[2:2 + npars]
     scalars = {p.name: float(m[0]) for p, m in zip(cp, mesh)}
+    # "every distribution point that lies inside the parameter's limits takes part": the mesh entry of every parameter the
+    # caller dispersed (by the parameter's own flags - numbered entries of vector parameters included) is the requested
+    # distribution cut at the limits declared for it (for a numbered entry: those of the vector's row)
+    mesh_mismatch = None
+    try:
+        from sasmodels import weights as _wts
+        declared = {k.id: k for k in info.parameters.kernel_parameters}
+        for p_, m_ in zip(cp, mesh):
+            n_ = pars.get(p_.name + "_pd_n", 0)
+            if p_.name in dispersible(info.parameters, dim) and pars.get(p_.name + "_pd", 0.0) > 0 and n_ and n_ >= 2:
+                base_ = declared.get(p_.id) or declared.get(p_.id.rstrip("0123456789"))
+                lim_ = base_.limits if base_ is not None else p_.limits
+                xv_, wv_ = _wts.get_weights(pars.get(p_.name + "_pd_type", "gaussian"), n_, pars[p_.name + "_pd"], pars.get(p_.name + "_pd_nsigma", 3.0),
+                                            float(pars[p_.name]), lim_, p_.relative_pd)
+                mv_, mw_ = np.asarray(m_[1], "d"), np.asarray(m_[2], "d")
+                if len(mv_) != len(xv_) or not np.allclose(mv_, xv_, rtol=1e-13, atol=1e-13) or not np.allclose(mw_, wv_, rtol=1e-12, atol=0):
+                    mesh_mismatch = "%s: a distribution of %d points (width %.4g) was requested, the mesh carries %d point(s) %s" % (
+                        p_.name, n_, pars[p_.name + "_pd"], len(mv_), np.round(mv_[:4], 4).tolist())
+                    break
+    except NotImplementedError:
+        pass
     kmesh = mesh[2:2 + npars]
     lens = [len(m[2]) for m in kmesh]
     total = int(np.prod(lens)) if lens else 1
     out = dict(lens=lens, total=total)
+    if mesh_mismatch:
+        out["mesh_mismatch"] = mesh_mismatch
     if total > cap:
         return None, dict(skip="mesh too large %d" % total)
     # --- implementation outputs
@@ -705,7 +734,7 @@ def main(run):
         if name in only_1d:
             plan = [(("1d",) + t[1:]) for t in plan]
         for dim in (["1d", "2d"] if oriented else ["1d"]):
-            pdn = info.parameters.pd_2d if dim == "2d" else info.parameters.pd_1d
+            pdn = dispersible(info.parameters, dim)
             if len(pdn) > info.parameters.max_pd:
                 plan.append((dim, None, None, None, ["toomany"]))
         kernels = {}
@@ -726,6 +755,9 @@ def main(run):
             case, out = build_case(kernel, info, dim, q, pars, cutoff, mode, rng, cap, leaf_fn=leaf_fns.get(name))
             desc = dict(model=name, dim=dim, pars=pars, cutoff=cutoff, mode=mode, q=[list(map(float, v)) for v in q], tags=tags)
             stats["by_kind"][tags[0]] = stats["by_kind"].get(tags[0], 0) + 1
+            if out.get("mesh_mismatch"):
+                run.add(Finding("C01:mesh:%s" % name, "%s: %s - the distribution does not take part in the average" % (name, out["mesh_mismatch"]), desc))
+                continue
             if "skip" in out:
                 continue
             stats["dims"][dim] += 1
